@@ -28,13 +28,167 @@ Qed.
 
 Ltac tsplit := split; [|split].
 
+(* ---- heaps only grow --------------------------------------------------------------- *)
+Definition hle (h h' : heaps) : Prop :=
+  length (ha h) <= length (ha h') /\ length (ho h) <= length (ho h').
+Definition mono {A} (c : M A) : Prop := forall h, hle h (snd (c h)).
+
+Lemma hle_refl h : hle h h. Proof. split; auto. Qed.
+Lemma hle_trans a b c : hle a b -> hle b c -> hle a c.
+Proof. intros [? ?] [? ?]; split; lia. Qed.
+
+Lemma mono_ret {A} (a : A) : mono (ret a). Proof. intro; apply hle_refl. Qed.
+Lemma mono_fail {A} e : mono (@fail A e). Proof. intro; apply hle_refl. Qed.
+Lemma mono_panic {A} : mono (@panic A). Proof. intro; apply hle_refl. Qed.
+Lemma mono_lift {A} (r : res A) : mono (lift r). Proof. intro; apply hle_refl. Qed.
+Lemma mono_bind {A B} (c : M A) (f : A -> M B) : mono c -> (forall a, mono (f a)) -> mono (bind c f).
+Proof.
+  intros Hc Hf h. unfold bind. specialize (Hc h). destruct (c h) as [[a|e|] h1]; simpl in *; auto.
+  eapply hle_trans; eauto. apply Hf.
+Qed.
+Lemma mono_ignore_err (c : M unit) : mono c -> mono (ignore_err c).
+Proof. intros Hc h. unfold ignore_err. specialize (Hc h). destruct (c h) as [[a|e|] h1]; simpl in *; auto. Qed.
+Lemma mono_m_elems s : mono (m_elems s). Proof. intro; apply hle_refl. Qed.
+Lemma mono_m_index s i : mono (m_index s i). Proof. intro; apply hle_refl. Qed.
+Lemma mono_o_get l : mono (o_get l).
+Proof. intro h; unfold o_get; destruct (nth_error (ho h) l); apply hle_refl. Qed.
+Lemma mono_o_set l c : mono (o_set l c).
+Proof. intro h; unfold o_set, hle; simpl. rewrite set_nth_length; split; auto. Qed.
+Lemma mono_o_alloc c : mono (o_alloc c).
+Proof. intro h; unfold o_alloc, hle; simpl. rewrite app_length; simpl; lia. Qed.
+Ltac hr := first [apply hle_refl | solve [split; simpl; auto]].
+Lemma mono_m_store s i v : mono (m_store s i v).
+Proof.
+  intro h; unfold m_store, store. destruct s as [|l o n c]; simpl; try hr.
+  destruct (Nat.ltb i n); simpl; try hr. unfold hle, hwrite; simpl. rewrite set_nth_length; split; auto.
+Qed.
+Lemma mono_m_alloc_list z l c : mono (m_alloc_list z l c).
+Proof. intro h; unfold m_alloc_list, alloc_list, halloc, hle; simpl. rewrite app_length; simpl; lia. Qed.
+Lemma mono_m_append grow z s vs : mono (m_append grow z s vs).
+Proof.
+  intro h; unfold m_append, append. destruct vs as [|v vs]; [hr|].
+  destruct s as [|l o n c]; [apply (mono_m_alloc_list z (v :: vs) _ h)|].
+  destruct (Nat.leb (n + length (v :: vs)) c).
+  - unfold hle, hwrite; simpl. rewrite set_nth_length; split; auto.
+  - apply (mono_m_alloc_list z _ _ h).
+Qed.
+Lemma mono_m_clone grow z s : mono (m_clone grow z s).
+Proof.
+  intro h; unfold m_clone, clone. destruct s as [|l o n c]; [hr|].
+  destruct n; [hr|]. apply (mono_m_alloc_list z _ _ h).
+Qed.
+Lemma mono_m_insert grow z s i v : mono (m_insert grow z s i v).
+Proof.
+  intro h; unfold m_insert, insert.
+  destruct (Nat.ltb (s_len s) i); [hr|].
+  destruct (Nat.eqb i (s_len s)); [apply (mono_m_append grow z s [v] h)|].
+  destruct s as [|l o n c]; [hr|]. simpl s_len.
+  destruct (Nat.ltb c (n + 1)); [apply (mono_m_alloc_list z _ _ h)|].
+  unfold hle, hwrite; simpl. rewrite set_nth_length; split; auto.
+Qed.
+Lemma mono_m_delete z s i j : mono (m_delete z s i j).
+Proof.
+  intro h; unfold m_delete, delete.
+  destruct (negb (Nat.leb i j && Nat.leb j (s_len s))); [hr|].
+  destruct (Nat.eqb i j); [hr|].
+  destruct s as [|l o n c]; [hr|]. unfold hle, hwrite; simpl. rewrite set_nth_length; split; auto.
+Qed.
+Create HintDb mo.
+#[export] Hint Resolve mono_m_elems mono_m_index mono_o_get mono_o_set mono_o_alloc mono_m_store mono_m_alloc_list
+     mono_m_append mono_m_clone mono_m_insert mono_m_delete : mo.
+
+Ltac mo :=
+  lazymatch goal with
+  | |- mono (bind _ _) => apply mono_bind; [mo | intros; mo]
+  | |- mono (ret _) => apply mono_ret
+  | |- mono (fail _) => apply mono_fail
+  | |- mono panic => apply mono_panic
+  | |- mono (lift _) => apply mono_lift
+  | |- mono (ignore_err _) => apply mono_ignore_err; mo
+  | |- mono (let _ := _ in _) => cbv zeta; mo
+  | |- mono (if ?b then _ else _) => destruct b; mo
+  | |- mono (match ?x with _ => _ end) => destruct x; mo
+  | |- _ => solve [eauto with mo]
+  end.
+
+Lemma mono_env_get fuel : forall e name, mono (env_get fuel e name).
+Proof. induction fuel; intros; simpl; mo. Qed.
+Lemma mono_env_each fuel : forall e, mono (env_each fuel e).
+Proof. induction fuel; intros; simpl; mo. Qed.
+#[export] Hint Resolve mono_env_get mono_env_each : mo.
+Lemma mono_env_put e n v : mono (env_put e n v). Proof. unfold env_put; mo. Qed.
+Lemma mono_env_del e n : mono (env_del e n). Proof. unfold env_del; mo. Qed.
+#[export] Hint Resolve mono_env_put mono_env_del : mo.
+Lemma mono_env_set fuel : forall e name vr, mono (env_set fuel e name vr).
+Proof. induction fuel; intros; simpl; mo. Qed.
+#[export] Hint Resolve mono_env_set : mo.
+Lemma mono_map_read m : mono (map_read m). Proof. unfold map_read; mo. Qed.
+Lemma mono_funcs_read m : mono (funcs_read m). Proof. unfold funcs_read; mo. Qed.
+Lemma mono_alias_read m : mono (alias_read m). Proof. unfold alias_read; mo. Qed.
+#[export] Hint Resolve mono_map_read mono_funcs_read mono_alias_read : mo.
+Lemma mono_map_clone m : mono (map_clone m). Proof. unfold map_clone; mo. Qed.
+Lemma mono_map_put l k v : mono (map_put l k v). Proof. unfold map_put; mo. Qed.
+Lemma mono_map_del l k : mono (map_del l k). Proof. unfold map_del; mo. Qed.
+Lemma mono_indexed_max l i : mono (indexed_max l i). Proof. unfold indexed_max; mo. Qed.
+Lemma mono_canonical i : mono (canonical_indexes i). Proof. unfold canonical_indexes; mo. Qed.
+#[export] Hint Resolve mono_map_clone mono_map_put mono_map_del mono_indexed_max mono_canonical : mo.
+Lemma mono_set_sparse g l ix k v : mono (set_sparse g l ix k v). Proof. unfold set_sparse; mo. Qed.
+#[export] Hint Resolve mono_set_sparse : mo.
+Lemma mono_set_indexed_elem g l ix k v : mono (set_indexed_elem g l ix k v). Proof. unfold set_indexed_elem; mo. Qed.
+Lemma mono_delete_indexed_elem l ix k : mono (delete_indexed_elem l ix k). Proof. unfold delete_indexed_elem; mo. Qed.
+#[export] Hint Resolve mono_set_indexed_elem mono_delete_indexed_elem : mo.
+Lemma mono_lookup_var r n : mono (lookup_var r n). Proof. unfold lookup_var; mo. Qed.
+Lemma mono_var_string v : mono (var_string v). Proof. unfold var_string; mo. Qed.
+Lemma mono_set_var r n v : mono (set_var r n v). Proof. unfold set_var; mo. Qed.
+Lemma mono_del_var r n : mono (del_var r n). Proof. unfold del_var; mo. Qed.
+Lemma mono_set_var_string r n s : mono (set_var_string r n s). Proof. apply mono_set_var. Qed.
+#[export] Hint Resolve mono_lookup_var mono_var_string mono_set_var mono_del_var mono_set_var_string : mo.
+Lemma mono_arr_loop g es : forall l ix i, mono (arr_loop g es l ix i).
+Proof. induction es as [|[[i|] v] es IH]; intros; simpl; mo. Qed.
+#[export] Hint Resolve mono_arr_loop : mo.
+Lemma mono_assign_val g p a hi rh vt : mono (assign_val g p a hi rh vt). Proof. unfold assign_val; mo. Qed.
+Lemma mono_set_var_with_index g r p n i v ae : mono (set_var_with_index g r p n i v ae).
+Proof. unfold set_var_with_index; mo. Qed.
+Lemma mono_unset_elem g r n s : mono (unset_elem g r n s). Proof. unfold unset_elem; mo. Qed.
+Lemma mono_unset_all r n : mono (unset_all r n). Proof. unfold unset_all; mo. Qed.
+Lemma mono_change_dir r p : mono (change_dir r p). Proof. unfold change_dir; mo. Qed.
+#[export] Hint Resolve mono_assign_val mono_set_var_with_index mono_unset_elem mono_unset_all mono_change_dir : mo.
+Lemma mono_step g o r : mono (step g o r). Proof. destruct o; unfold step; mo. Qed.
+Lemma mono_set_all e : forall l, mono (set_all e l).
+Proof. induction l as [|[n v] l IH]; cbn [set_all]; mo. Qed.
+#[export] Hint Resolve mono_step mono_set_all : mo.
+Lemma mono_map_clone_funcs f : mono (map_clone_funcs f). Proof. unfold map_clone_funcs; mo. Qed.
+Lemma mono_map_clone_alias f : mono (map_clone_alias f). Proof. unfold map_clone_alias; mo. Qed.
+#[export] Hint Resolve mono_map_clone_funcs mono_map_clone_alias : mo.
+Lemma mono_subshell g bg r : mono (subshell g bg r).
+Proof. unfold subshell, map_clone_funcs, map_clone_alias; mo. Qed.
+
+Lemma step_state_hle g s o : hle (st_h s) (st_h (step_state g s o)).
+Proof.
+  unfold step_state. destruct (st_panic s); [apply hle_refl|].
+  pose proof (mono_step g o (st_r s) (st_h s)) as H.
+  destruct (step g o (st_r s) (st_h s)) as [[r'|e|] h']; simpl in *; auto.
+Qed.
+Lemma run_ops_hle g ops : forall s, hle (st_h s) (st_h (run_ops g ops s)).
+Proof.
+  induction ops as [|o ops IH]; intros s; simpl; [apply hle_refl|].
+  eapply hle_trans; [apply step_state_hle | apply IH].
+Qed.
+
+
 Section Own.
 Variable grow : nat -> nat -> nat.
 (* the cells this thread owns; every location not yet allocated counts as owned *)
 Variables owna owno : loc -> Prop.
+(* bounds on the heap lengths reached by the computation under study: locations
+   at or above them are never allocated and need not be owned *)
+Variables Na No : nat.
 
 Definition fresh_owned (h : heaps) : Prop :=
-  (forall l, length (ha h) <= l -> owna l) /\ (forall l, length (ho h) <= l -> owno l).
+  (forall l, length (ha h) <= l -> l < Na -> owna l) /\ (forall l, length (ho h) <= l -> l < No -> owno l).
+Definition lenok (h : heaps) : Prop := length (ha h) <= Na /\ length (ho h) <= No.
+Lemma lenok_hle h h' : hle h h' -> lenok h' -> lenok h.
+Proof. intros [? ?] [? ?]; split; lia. Qed.
 
 (* an owned function-scope overlay forwards Set to an owned parent *)
 Definition fs_closed (h : heaps) : Prop :=
@@ -69,27 +223,31 @@ Ltac nochange Hi :=
           | try (intros; exact I); try (intros; discriminate) ].
 
 Definition triple {A} (c : M A) (Q : A -> Prop) : Prop :=
-  forall h, hinv h ->
+  forall h, hinv h -> lenok (snd (c h)) ->
     frame h (snd (c h)) /\ hinv (snd (c h)) /\ (forall a, fst (c h) = Ok a -> Q a).
 
 Lemma triple_ret {A} (a : A) (Q : A -> Prop) : Q a -> triple (ret a) Q.
-Proof. intros H h Hi; simpl; nochange Hi. intros ? [= <-]; auto. Qed.
+Proof. intros H h Hi Hl; simpl; nochange Hi. intros ? [= <-]; auto. Qed.
 
 Lemma triple_fail {A} e (Q : A -> Prop) : triple (fail e) Q.
-Proof. intros h Hi; simpl; nochange Hi. Qed.
+Proof. intros h Hi Hl; simpl; nochange Hi. Qed.
 
 Lemma triple_panic {A} (Q : A -> Prop) : triple panic Q.
-Proof. intros h Hi; simpl; nochange Hi. Qed.
+Proof. intros h Hi Hl; simpl; nochange Hi. Qed.
 
 Lemma triple_lift {A} (r : res A) (Q : A -> Prop) : (forall a, r = Ok a -> Q a) -> triple (lift r) Q.
-Proof. intros H h Hi; simpl; nochange Hi. auto. Qed.
+Proof. intros H h Hi Hl; simpl; nochange Hi. auto. Qed.
 
 Lemma triple_bind {A B} (c : M A) (f : A -> M B) (Q : A -> Prop) (R : B -> Prop) :
-  triple c Q -> (forall a, Q a -> triple (f a) R) -> triple (bind c f) R.
+  triple c Q -> (forall a, mono (f a)) -> (forall a, Q a -> triple (f a) R) -> triple (bind c f) R.
 Proof.
-  intros Hc Hf h Hi. unfold bind. destruct (Hc h Hi) as (F & I & P).
+  intros Hc Hm Hf h Hi Hl. unfold bind in *.
+  assert (L1 : lenok (snd (c h))).
+  { destruct (c h) as [[a|e|] h1] eqn:E; simpl in *; auto.
+    eapply lenok_hle; [apply (Hm a h1) | exact Hl]. }
+  destruct (Hc h Hi L1) as (F & I & P).
   destruct (c h) as [[a|e|] h1]; simpl in *.
-  - destruct (Hf a (P a eq_refl) h1 I) as (F2 & I2 & P2).
+  - destruct (Hf a (P a eq_refl) h1 I Hl) as (F2 & I2 & P2).
     tsplit; auto. eapply frame_trans; eauto.
   - tsplit; auto; intros; discriminate.
   - tsplit; auto; intros; discriminate.
@@ -97,12 +255,14 @@ Qed.
 
 Lemma triple_weaken {A} (c : M A) (Q Q' : A -> Prop) :
   triple c Q -> (forall a, Q a -> Q' a) -> triple c Q'.
-Proof. intros H W h Hi. destruct (H h Hi) as (F & I & P); tsplit; auto. Qed.
+Proof. intros H W h Hi Hl. destruct (H h Hi Hl) as (F & I & P); tsplit; auto. Qed.
 
 Lemma triple_ignore_err (c : M unit) (Q : unit -> Prop) :
   triple c Q -> triple (ignore_err c) (fun _ => True).
 Proof.
-  intros H h Hi. unfold ignore_err. destruct (H h Hi) as (F & I & P).
+  intros H h Hi Hl. unfold ignore_err in *.
+  assert (L1 : lenok (snd (c h))) by (destruct (c h) as [[a|e|] h1]; simpl in *; auto).
+  destruct (H h Hi L1) as (F & I & P).
   destruct (c h) as [[a|e|] h1]; simpl in *; tsplit; auto.
 Qed.
 
@@ -110,7 +270,7 @@ Qed.
 Definition readonly {A} (c : M A) : Prop := forall h, snd (c h) = h.
 
 Lemma triple_readonly {A} (c : M A) : readonly c -> triple c (fun _ => True).
-Proof. intros H h Hi. rewrite H. nochange Hi. Qed.
+Proof. intros H h Hi Hl. rewrite H. nochange Hi. Qed.
 
 Lemma readonly_ret {A} (a : A) : readonly (ret a). Proof. intro; reflexivity. Qed.
 Lemma readonly_fail {A} e : readonly (@fail A e). Proof. intro; reflexivity. Qed.
@@ -137,7 +297,7 @@ Definition owned_s (s : slice) : Prop :=
 Lemma hinv_ha h a' : hinv h -> length (ha h) <= length a' -> hinv (mkH a' (ho h)).
 Proof.
   intros ((Fa & Fo) & C) L. split; [split|]; simpl; auto.
-  intros l Hl; apply Fa; lia.
+  intros l Hl Hn; apply Fa; auto; lia.
 Qed.
 
 Lemma step_hwrite h l pos (vs : list val) :
@@ -150,45 +310,55 @@ Proof.
   - apply hinv_ha; auto. rewrite set_nth_length; auto.
 Qed.
 
+Lemma nth_error_app_unowned {A} (l : list A) c j :
+  j <> length l -> nth_error (l ++ [c]) j = nth_error l j.
+Proof.
+  intros N. destruct (Nat.lt_ge_cases j (length l)) as [L|L].
+  - apply nth_error_app1; auto.
+  - assert (nth_error l j = None) as -> by (apply nth_error_None; auto).
+    apply nth_error_None. rewrite app_length; simpl; lia.
+Qed.
+
 Lemma step_halloc h (c : list val) :
-  hinv h ->
+  hinv h -> length (ha h) < Na ->
   frame h (mkH (ha h ++ [c]) (ho h)) /\ hinv (mkH (ha h ++ [c]) (ho h)) /\ owna (length (ha h)).
 Proof.
-  intros Hi. pose proof Hi as ((Fa & Fo) & C). split; [|split].
+  intros Hi Hl. pose proof Hi as ((Fa & Fo) & C).
+  assert (O : owna (length (ha h))) by (apply Fa; auto).
+  split; [|split]; auto.
   - unfold frame; simpl. rewrite app_length; simpl. repeat split; auto; try lia.
-    intros l Hn. apply nth_error_app_below.
-    destruct (Nat.lt_ge_cases l (length (ha h))); auto. exfalso; auto.
+    intros l Hn. apply nth_error_app_unowned. intro; subst; auto.
   - apply hinv_ha; auto. rewrite app_length; simpl; lia.
-  - apply Fa; auto.
 Qed.
 
 Lemma triple_m_alloc_list z l c : triple (m_alloc_list z l c) owned_s.
 Proof.
-  intros h Hi. unfold m_alloc_list, alloc_list, halloc. simpl.
+  intros h Hi Hl. unfold m_alloc_list, alloc_list, halloc in *. simpl in *.
   destruct (step_halloc h (l ++ repeat z (Nat.max c (length l) - length l)) Hi) as (F & I & O).
+  { destruct Hl as [Hl _]. simpl in Hl. rewrite app_length in Hl; simpl in Hl; lia. }
   tsplit; auto. intros a [= <-]. simpl; auto.
 Qed.
 
 Lemma triple_m_store s i v : owned_s s -> triple (m_store s i v) (fun _ => True).
 Proof.
   intros Ho h Hi. unfold m_store, store. destruct s as [|l o n c]; simpl.
-  - nochange Hi.
+  - intros Hl; nochange Hi.
   - destruct (Nat.ltb i n) eqn:E; simpl.
     + destruct Ho as [Ho|[-> _]]; [|apply Nat.ltb_lt in E; lia].
-      destruct (step_hwrite h l (o + i) [v] Hi Ho); tsplit; auto.
-    + nochange Hi.
+      intros Hl; destruct (step_hwrite h l (o + i) [v] Hi Ho); tsplit; auto.
+    + intros Hl; nochange Hi.
 Qed.
 
 Lemma triple_m_append z s vs : owned_s s -> triple (m_append grow z s vs) owned_s.
 Proof.
   intros Ho h Hi. unfold m_append, append.
   destruct vs as [|v vs].
-  - simpl. nochange Hi. intros a [= <-]; auto.
+  - simpl. intros Hl; nochange Hi. intros a [= <-]; auto.
   - destruct s as [|l o n c].
     + apply (triple_m_alloc_list z (v :: vs) _ h Hi).
     + destruct (Nat.leb (n + length (v :: vs)) c) eqn:E.
       * simpl. destruct Ho as [Ho|[-> ->]]; [|apply Nat.leb_le in E; simpl in E; lia].
-        destruct (step_hwrite h l (o + n) (v :: vs) Hi Ho); tsplit; auto.
+        intros Hl; destruct (step_hwrite h l (o + n) (v :: vs) Hi Ho); tsplit; auto.
         intros a [= <-]; simpl; auto.
       * apply (triple_m_alloc_list z _ _ h Hi).
 Qed.
@@ -196,9 +366,9 @@ Qed.
 Lemma triple_m_clone z s : triple (m_clone grow z s) owned_s.
 Proof.
   intros h Hi. unfold m_clone, clone. destruct s as [|l o n c].
-  - simpl. nochange Hi. intros a [= <-]; simpl; auto.
+  - simpl. intros Hl; nochange Hi. intros a [= <-]; simpl; auto.
   - destruct n.
-    + simpl. nochange Hi. intros a [= <-]; simpl; auto.
+    + simpl. intros Hl; nochange Hi. intros a [= <-]; simpl; auto.
     + apply (triple_m_alloc_list z _ _ h Hi).
 Qed.
 
@@ -206,15 +376,15 @@ Lemma triple_m_insert z s i v : owned_s s -> triple (m_insert grow z s i v) owne
 Proof.
   intros Ho h Hi. unfold m_insert, insert.
   destruct (Nat.ltb (s_len s) i).
-  { simpl. nochange Hi. }
+  { simpl. intros Hl; nochange Hi. }
   destruct (Nat.eqb i (s_len s)).
   { apply (triple_m_append z s [v] Ho h Hi). }
   destruct s as [|l o n c].
-  { simpl. nochange Hi. }
+  { simpl. intros Hl; nochange Hi. }
   simpl s_len. destruct (Nat.ltb c (n + 1)) eqn:E.
   - apply (triple_m_alloc_list z _ _ h Hi).
   - simpl. destruct Ho as [Ho|[-> ->]]; [|apply Nat.ltb_ge in E; lia].
-    destruct (step_hwrite h l o (firstn i (elems (ha h) (Sl l o n c)) ++ v :: skipn i (elems (ha h) (Sl l o n c))) Hi Ho).
+    intros Hl; destruct (step_hwrite h l o (firstn i (elems (ha h) (Sl l o n c)) ++ v :: skipn i (elems (ha h) (Sl l o n c))) Hi Ho).
     tsplit; auto. intros a [= <-]; simpl; auto.
 Qed.
 
@@ -222,13 +392,13 @@ Lemma triple_m_delete z s i j : owned_s s -> triple (m_delete z s i j) owned_s.
 Proof.
   intros Ho h Hi. unfold m_delete, delete.
   destruct (negb (Nat.leb i j && Nat.leb j (s_len s))) eqn:B.
-  { simpl. nochange Hi. }
+  { simpl. intros Hl; nochange Hi. }
   destruct (Nat.eqb i j) eqn:E.
-  { simpl. nochange Hi. intros a [= <-]; auto. }
+  { simpl. intros Hl; nochange Hi. intros a [= <-]; auto. }
   destruct s as [|l o n c].
-  { simpl. nochange Hi. }
+  { simpl. intros Hl; nochange Hi. }
   simpl. destruct Ho as [Ho|[-> ->]].
-  - match goal with |- context [hwrite ?a ?b ?c ?d] => destruct (step_hwrite h b c d Hi Ho) end.
+  - match goal with |- context [hwrite ?a ?b ?c ?d] => intros Hl; destruct (step_hwrite h b c d Hi Ho) end.
     tsplit; auto. intros a [= <-]; simpl; auto.
   - apply negb_false_iff, andb_true_iff in B. destruct B as [B1 B2].
     apply Nat.leb_le in B1, B2. simpl in B2. apply Nat.eqb_neq in E. lia.
@@ -249,28 +419,26 @@ Proof. intros Ho. apply triple_lift. intros a. apply owned_reslice; auto. Qed.
 (* ---- object heap primitives -------------------------------------------------- *)
 Definition own_opt (o : option loc) : Prop := match o with None => True | Some l => owno l end.
 
-Lemma hinv_len h : hinv h -> forall l, ~ owno l -> l < length (ho h).
-Proof.
-  intros ((Fa & Fo) & C) l Hn. destruct (Nat.lt_ge_cases l (length (ho h))); auto. exfalso; auto.
-Qed.
-
 Lemma triple_o_alloc c :
   (forall p vals, c = CEnv (Some p) true vals -> owno p) -> triple (o_alloc c) owno.
 Proof.
-  intros Hc h Hi. pose proof Hi as ((Fa & Fo) & C). unfold o_alloc; simpl.
+  intros Hc h Hi Hl. pose proof Hi as ((Fa & Fo) & C). unfold o_alloc in *; simpl in *.
+  assert (L : length (ho h) < No).
+  { destruct Hl as [_ Hl]. simpl in Hl. rewrite app_length in Hl; simpl in Hl; lia. }
+  assert (O : owno (length (ho h))) by (apply Fo; auto).
   tsplit.
   - unfold frame; simpl. rewrite app_length; simpl. repeat split; auto; try lia.
-    intros l Hn. apply nth_error_app_below. apply hinv_len; auto.
+    intros l Hn. apply nth_error_app_unowned. intro; subst; auto.
   - split; [split|]; simpl; auto.
-    + intros l Hl. apply Fo. rewrite app_length in Hl; simpl in Hl; lia.
+    + intros l Hl' Hn. apply Fo; auto. rewrite app_length in Hl'; simpl in Hl'; lia.
     + intros l p vals Ol E. simpl in E.
-      destruct (Nat.lt_ge_cases l (length (ho h))) as [L|L].
+      destruct (Nat.lt_ge_cases l (length (ho h))) as [L'|L'].
       * rewrite nth_error_app1 in E by auto. eapply C; eauto.
       * rewrite nth_error_app2 in E by auto.
         destruct (l - length (ho h)) as [|k] eqn:K; simpl in E.
         -- injection E as E. eapply Hc; eauto.
         -- destruct k; discriminate.
-  - intros a [= <-]. apply Fo; auto.
+  - intros a [= <-]. auto.
 Qed.
 
 Definition not_fs_env (c : ocell) : Prop :=
@@ -285,7 +453,7 @@ Proof.
   - unfold frame; simpl. rewrite set_nth_length. repeat split; auto.
     intros l' Hn. apply nth_error_set_nth_other. intro; subst; auto.
   - split; [split|]; simpl; auto.
-    + intros l' Hl. apply Fo. rewrite set_nth_length in Hl; auto.
+    + intros l' Hl Hn. apply Fo; auto. rewrite set_nth_length in Hl; auto.
     + intros l' p vals Ol' E. simpl in E. destruct (Nat.eq_dec l l') as [->|N].
       * destruct (nth_error (ho h) l') eqn:E0.
         -- assert (nth_error (set_nth (ho h) l' c) l' = Some c) as E1.
@@ -301,7 +469,7 @@ Lemma triple_o_set l c :
   owno l -> (forall p vals, c = CEnv (Some p) true vals -> owno p) ->
   triple (o_set l c) (fun _ => True).
 Proof.
-  intros Ol Hc h Hi. unfold o_set; simpl. destruct (step_o_set h l c Hi Ol Hc). tsplit; auto.
+  intros Ol Hc h Hi Hl. unfold o_set; simpl. destruct (step_o_set h l c Hi Ol Hc). tsplit; auto.
 Qed.
 
 Lemma triple_o_get l : triple (o_get l) (fun _ => True).
@@ -343,11 +511,11 @@ Ltac tleaf := solve [ eauto with trip
 Ltac tgo :=
   lazymatch goal with
   | |- triple (bind _ _) _ =>
-      first [ eapply triple_bind; [ solve [eauto with trip] | cbv beta; intros; clean; tgo ]
-            | eapply (triple_bind _ _ owned2o); [ tgo | cbv beta; intros; clean; tgo ]
-            | eapply (triple_bind _ _ owned2); [ tgo | cbv beta; intros; clean; tgo ]
-            | eapply (triple_bind _ _ owno); [ tgo | cbv beta; intros; clean; tgo ]
-            | eapply (triple_bind _ _ (fun _ => True)); [ tgo | cbv beta; intros; clean; tgo ] ]
+      first [ eapply triple_bind; [ solve [eauto with trip] | solve [intros; mo] | cbv beta; intros; clean; tgo ]
+            | eapply (triple_bind _ _ owned2o); [ tgo | solve [intros; mo] | cbv beta; intros; clean; tgo ]
+            | eapply (triple_bind _ _ owned2); [ tgo | solve [intros; mo] | cbv beta; intros; clean; tgo ]
+            | eapply (triple_bind _ _ owno); [ tgo | solve [intros; mo] | cbv beta; intros; clean; tgo ]
+            | eapply (triple_bind _ _ (fun _ => True)); [ tgo | solve [intros; mo] | cbv beta; intros; clean; tgo ] ]
   | |- triple (let _ := _ in _) _ => cbv zeta; tgo
   | |- triple (ret _) _ =>
       apply triple_ret; unfold owned2o, owned2; simpl;
@@ -427,17 +595,17 @@ Proof. intros Hc. apply triple_o_alloc. intros p vals ->. simpl in Hc. contradic
 Lemma triple_map_clone m : triple (map_clone m) own_opt.
 Proof.
   unfold map_clone. destruct m; [|tgo].
-  eapply triple_bind; [eauto with trip|]. intros a _.
-  eapply triple_bind; [apply triple_o_alloc_plain; exact I|]. intros l' Hl. tgo.
+  eapply triple_bind; [eauto with trip|solve [intros; mo]|]. intros a _.
+  eapply triple_bind; [apply triple_o_alloc_plain; exact I|solve [intros; mo]|]. intros l' Hl. tgo.
 Qed.
 Lemma triple_map_put l k v : owno l -> triple (map_put l k v) (fun _ => True).
 Proof.
-  intros. unfold map_put. eapply triple_bind; [eauto with trip|]. intros c _.
+  intros. unfold map_put. eapply triple_bind; [eauto with trip|solve [intros; mo]|]. intros c _.
   destruct c; try apply triple_panic. apply triple_o_set_plain; simpl; auto.
 Qed.
 Lemma triple_map_del l k : owno l -> triple (map_del l k) (fun _ => True).
 Proof.
-  intros. unfold map_del. eapply triple_bind; [eauto with trip|]. intros c _.
+  intros. unfold map_del. eapply triple_bind; [eauto with trip|solve [intros; mo]|]. intros c _.
   destruct c; try apply triple_panic. apply triple_o_set_plain; simpl; auto.
 Qed.
 Hint Resolve triple_map_clone triple_map_put triple_map_del : trip.
@@ -465,6 +633,7 @@ Proof. intros. apply (triple_env_update e (al_del name)); auto. Qed.
 Hint Resolve triple_env_put triple_env_del : trip.
 
 Definition triple_at {A} (c : M A) (h : heaps) (Q : A -> Prop) : Prop :=
+  lenok (snd (c h)) ->
   frame h (snd (c h)) /\ hinv (snd (c h)) /\ (forall a, fst (c h) = Ok a -> Q a).
 
 Lemma bind_o_get_at {B} e (f : ocell -> M B) h (R : B -> Prop) :
@@ -474,13 +643,13 @@ Proof.
   intros Hi H. unfold triple_at, bind, o_get.
   destruct (nth_error (ho h) e) as [c|] eqn:E; simpl.
   - apply H; auto.
-  - nochange Hi.
+  - intros Hl; nochange Hi.
 Qed.
 
 Lemma triple_env_set fuel : forall e name vr, owno e -> triple (env_set fuel e name vr) (fun _ => True).
 Proof.
   induction fuel; intros e name vr Oe; simpl; [apply triple_fail|].
-  intros h Hi. apply bind_o_get_at; auto. intros c E.
+  intros h Hi. apply bind_o_get_at; auto. intros c E. unfold triple_at.
   destruct c; try (apply (triple_panic (fun _ => True) h Hi)).
   destruct (fs && negb (v_local vr) &&
             negb (v_local match al_get name vals with Some v => v | None => var0 end)) eqn:B.
@@ -488,7 +657,7 @@ Proof.
     apply IHfuel; auto.
     apply andb_true_iff in B. destruct B as [B _]. apply andb_true_iff in B. destruct B as [B _]. subst fs.
     destruct Hi as (_ & C). eapply C; eauto.
-  - match goal with |- triple_at ?c h _ => assert (T : triple c (fun _ => True)) end.
+  - match goal with |- lenok (snd (?c h)) -> _ => assert (T : triple c (fun _ => True)) end.
     { tgo. }
     apply (T h Hi).
 Qed.
@@ -512,11 +681,11 @@ Lemma triple_arr_loop es : forall l ix index,
 Proof.
   induction es as [|[[i|] v] es IH]; intros l ix index Hl Hix; simpl.
   - unfold owned2. tgo.
-  - eapply triple_bind; [eauto with trip|]. intros mx _.
+  - eapply triple_bind; [eauto with trip|solve [intros; mo]|]. intros mx _.
     match goal with |- triple (if ?b then _ else _) _ => destruct b end.
     + unfold owned2. tgo.
-    + eapply triple_bind; [eauto with trip|]. intros [l' ix'] [H1 H2]. simpl in *. apply IH; auto.
-  - eapply triple_bind; [eauto with trip|]. intros [l' ix'] [H1 H2]. simpl in *. apply IH; auto.
+    + eapply triple_bind; [eauto with trip|solve [intros; mo]|]. intros [l' ix'] [H1 H2]. simpl in *. apply IH; auto.
+  - eapply triple_bind; [eauto with trip|solve [intros; mo]|]. intros [l' ix'] [H1 H2]. simpl in *. apply IH; auto.
 Qed.
 Hint Resolve triple_arr_loop : trip.
 
@@ -571,26 +740,26 @@ Proof.
   - (* OUnsetF *) tgo.
   - (* OShift *)
     destruct (Nat.leb (s_len (r_params r)) n); [tgo; unfold rinv; auto|].
-    eapply (triple_bind _ _ (fun _ => True)); [apply triple_lift; auto|].
+    eapply (triple_bind _ _ (fun _ => True)); [apply triple_lift; auto|solve [intros; mo]|].
     intros; tgo; unfold rinv; auto.
   - (* OSetParams *) tgo; unfold rinv; auto.
   - (* OCd *) tgo.
   - (* OPushd *)
-    eapply triple_bind; [apply triple_change_dir; auto|]. intros r' (He' & Hf' & Ha' & Hd' & Hs').
+    eapply triple_bind; [apply triple_change_dir; auto|solve [intros; mo]|]. intros r' (He' & Hf' & Ha' & Hd' & Hs').
     tgo; unfold rinv; simpl; auto.
   - (* OPushdSwap *) tgo.
   - (* OPopd *)
     destruct (Nat.ltb (s_len (r_dirstack r)) 2); [tgo|].
-    eapply triple_bind; [apply triple_reslice; eauto|]. intros d Hd'.
-    eapply triple_bind; [eauto with trip|]. intros nt _.
+    eapply triple_bind; [apply triple_reslice; eauto|solve [intros; mo]|]. intros d Hd'.
+    eapply triple_bind; [eauto with trip|solve [intros; mo]|]. intros nt _.
     apply triple_change_dir. unfold rinv; simpl; auto.
   - (* OAlias *) destruct (r_alias r) eqn:E; tgo; unfold rinv; simpl; rewrite ?E; auto.
   - (* OUnalias *) destruct (r_alias r) eqn:E; tgo.
   - (* OFuncDef *) destruct (r_funcs r) eqn:E; tgo; unfold rinv; simpl; rewrite ?E; auto.
   - (* OSetOpt *) tgo; unfold rinv; auto.
   - (* OCallBegin *)
-    eapply triple_bind; [eauto with trip|]. intros p _.
-    eapply triple_bind; [apply triple_o_alloc; intros ? ? [= <- _]; exact He|]. intros e Oe.
+    eapply triple_bind; [eauto with trip|solve [intros; mo]|]. intros p _.
+    eapply triple_bind; [apply triple_o_alloc; intros ? ? [= <- _]; exact He|solve [intros; mo]|]. intros e Oe.
     apply triple_ret. unfold rinv; simpl. repeat split; auto.
   - (* OCallEnd *)
     destruct (r_stack r) as [|fr rest] eqn:E; [tgo|].
@@ -598,32 +767,36 @@ Proof.
 Qed.
 
 Lemma step_state_inv s o :
-  rinv (st_r s) -> hinv (st_h s) ->
+  rinv (st_r s) -> hinv (st_h s) -> lenok (st_h (step_state grow s o)) ->
   frame (st_h s) (st_h (step_state grow s o)) /\ rinv (st_r (step_state grow s o)) /\
   hinv (st_h (step_state grow s o)).
 Proof.
-  intros Hr Hi. unfold step_state. destruct (st_panic s).
+  intros Hr Hi Hl. unfold step_state in *. destruct (st_panic s).
   { tsplit; auto using frame_refl. }
-  destruct (triple_step o (st_r s) Hr (st_h s) Hi) as (F & I & P).
+  assert (L : lenok (snd (step grow o (st_r s) (st_h s)))).
+  { destruct (step grow o (st_r s) (st_h s)) as [[r'|e|] h']; simpl in *; auto. }
+  destruct (triple_step o (st_r s) Hr (st_h s) Hi L) as (F & I & P).
   destruct (step grow o (st_r s) (st_h s)) as [[r'|e|] h']; simpl in *; tsplit; auto.
 Qed.
 
 Lemma run_ops_inv ops : forall s,
-  rinv (st_r s) -> hinv (st_h s) ->
+  rinv (st_r s) -> hinv (st_h s) -> lenok (st_h (run_ops grow ops s)) ->
   frame (st_h s) (st_h (run_ops grow ops s)) /\ rinv (st_r (run_ops grow ops s)) /\
   hinv (st_h (run_ops grow ops s)).
 Proof.
-  induction ops as [|o ops IH]; intros s Hr Hi; simpl.
+  induction ops as [|o ops IH]; intros s Hr Hi Hl; simpl in *.
   - tsplit; auto using frame_refl.
-  - destruct (step_state_inv s o Hr Hi) as (F & R & I).
-    destruct (IH _ R I) as (F2 & R2 & I2). tsplit; auto. eapply frame_trans; eauto.
+  - assert (L1 : lenok (st_h (step_state grow s o))).
+    { eapply lenok_hle; [apply run_ops_hle | exact Hl]. }
+    destruct (step_state_inv s o Hr Hi L1) as (F & R & I).
+    destruct (IH _ R I Hl) as (F2 & R2 & I2). tsplit; auto. eapply frame_trans; eauto.
 Qed.
 
 (* ---- Runner.subshell ---------------------------------------------------------------------- *)
 Lemma triple_set_all e : forall l, owno e -> triple (set_all e l) (fun _ => True).
 Proof.
   induction l as [|[n v] l IH]; intros Oe; cbn [set_all]; [tgo|].
-  eapply triple_bind; [eapply triple_ignore_err; apply triple_env_set; auto|]. intros; auto.
+  eapply triple_bind; [eapply triple_ignore_err; apply triple_env_set; auto|solve [intros; mo]|]. intros; auto.
 Qed.
 
 Lemma triple_subshell bg r : triple (subshell grow bg r) rinv.
@@ -631,16 +804,19 @@ Proof.
   unfold subshell.
   eapply (triple_bind _ _ owno).
   { destruct bg.
-    - eapply triple_bind; [apply triple_o_alloc; intros ? ? [=]|]. intros e Oe.
-      eapply triple_bind; [eauto with trip|]. intros all _.
-      eapply triple_bind; [apply triple_set_all; auto|]. intros; tgo.
+    - eapply triple_bind; [apply triple_o_alloc; intros ? ? [=]|solve [intros; mo]|]. intros e Oe.
+      eapply triple_bind; [eauto with trip|solve [intros; mo]|]. intros all _.
+      eapply triple_bind; [apply triple_set_all; auto|solve [intros; mo]|]. intros; tgo.
     - apply triple_o_alloc; intros ? ? [=]. }
+  { intros; mo. }
   intros e Oe.
   eapply (triple_bind _ _ own_opt).
   { unfold map_clone_funcs. destruct (r_funcs r); tgo. }
+  { intros; mo. }
   intros f Of.
   eapply (triple_bind _ _ own_opt).
   { unfold map_clone_alias. destruct (r_alias r); tgo. }
+  { intros; mo. }
   intros a Oa'.
   tgo. unfold rinv; simpl; auto.
 Qed.
@@ -790,6 +966,142 @@ Qed.
 
 End Agree.
 
+(* the same for an arbitrary set of cells (Pa, Po) closed under the pointers stored in it *)
+Definition agreeP (Pa Po : loc -> Prop) (h h' : heaps) : Prop :=
+  (forall l, Pa l -> nth_error (ha h') l = nth_error (ha h) l) /\
+  (forall l, Po l -> nth_error (ho h') l = nth_error (ho h) l).
+Definition okS (Pa : loc -> Prop) (s : slice) : Prop :=
+  match s with SNil => True | Sl l _ _ _ => Pa l end.
+Definition okO (Po : loc -> Prop) (o : option loc) : Prop :=
+  match o with Some l => Po l | None => True end.
+Definition okV (Pa Po : loc -> Prop) (v : variable) : Prop :=
+  okS Pa (v_list v) /\ okS Pa (v_idx v) /\ okO Po (v_map v).
+Definition okVals (Pa Po : loc -> Prop) (vals : list (str * variable)) : Prop :=
+  Forall (fun nv => okV Pa Po (snd nv)) vals.
+Definition okCell (Pa Po : loc -> Prop) (c : ocell) : Prop :=
+  match c with
+  | CEnv p _ vals => match p with Some p' => Po p' | None => True end /\ okVals Pa Po vals
+  | CBase vals => okVals Pa Po vals
+  | _ => True
+  end.
+Definition closedP (Pa Po : loc -> Prop) (h : heaps) : Prop :=
+  forall l c, Po l -> nth_error (ho h) l = Some c -> okCell Pa Po c.
+Definition okR (Pa Po : loc -> Prop) (r : runner) : Prop :=
+  Po (r_env r) /\ okO Po (r_funcs r) /\ okO Po (r_alias r) /\ okS Pa (r_dirstack r) /\ okS Pa (r_params r).
+
+Section AgreeP.
+Variables h h' : heaps.
+Variables Pa Po : loc -> Prop.
+Hypothesis AG : agreeP Pa Po h h'.
+Hypothesis WF : closedP Pa Po h.
+
+Lemma elems_agreeP s : okS Pa s -> elems (ha h') s = elems (ha h) s.
+Proof.
+  destruct s as [|l o n c]; simpl; auto. intros L. unfold arr.
+  rewrite (nth_of_nth_error (ha h) (ha h') l []); auto. apply AG; auto.
+Qed.
+
+Lemma bind_o_getP {B} e (f : ocell -> M B) g :
+  bind (o_get e) f g = match nth_error (ho g) e with Some c => f c g | None => (Panic, g) end.
+Proof. unfold bind, o_get. destruct (nth_error (ho g) e); reflexivity. Qed.
+
+Lemma al_get_wfP name vals v : okVals Pa Po vals -> al_get name vals = Some v -> okV Pa Po v.
+Proof.
+  induction 1 as [|[k x] t Hx Ht IH]; simpl; [discriminate|].
+  destruct (str_eqb k name); auto. intros [= <-]; auto.
+Qed.
+
+Lemma wf_var0P : okV Pa Po var0.
+Proof. unfold okV, var0; simpl; auto. Qed.
+
+Lemma env_get_agreeP fuel : forall e name, Po e ->
+  fst (env_get fuel e name h') = fst (env_get fuel e name h) /\
+  (forall v, fst (env_get fuel e name h) = Ok v -> okV Pa Po v).
+Proof.
+  induction fuel; intros e name L; simpl; [split; auto; discriminate|].
+  rewrite !bind_o_getP. destruct AG as [_ AGo]. rewrite (AGo e L).
+  destruct (nth_error (ho h) e) as [c|] eqn:E; [|split; auto; discriminate].
+  pose proof (WF e c L E) as W.
+  destruct c; simpl; try (split; auto; discriminate).
+  - destruct W as [Wp Wv].
+    destruct (al_get name vals) eqn:G.
+    + simpl. split; auto. intros v0 [= <-]. eapply al_get_wfP; eauto.
+    + destruct parent as [p'|].
+      * apply IHfuel. exact Wp.
+      * simpl. split; auto. intros v0 [= <-]. apply wf_var0P.
+  - split; auto. intros v0 [= <-]. destruct (al_get name vals) eqn:G.
+    + eapply al_get_wfP; eauto.
+    + apply wf_var0P.
+Qed.
+
+Lemma env_each_agreeP fuel : forall e, Po e ->
+  fst (env_each fuel e h') = fst (env_each fuel e h).
+Proof.
+  induction fuel; intros e L; simpl; auto.
+  rewrite !bind_o_getP. destruct AG as [_ AGo]. rewrite (AGo e L).
+  destruct (nth_error (ho h) e) as [c|] eqn:E; auto.
+  pose proof (WF e c L E) as W.
+  destruct c; simpl; auto.
+  destruct W as [Wp Wv]. destruct parent as [p'|]; simpl; auto.
+  assert (Lp : Po p') by exact Wp.
+  specialize (IHfuel p' Lp).
+  unfold bind.
+  pose proof (readonly_env_each fuel p' h') as R1. pose proof (readonly_env_each fuel p' h) as R2.
+  destruct (env_each fuel p' h') as [r1 g1]; destruct (env_each fuel p' h) as [r2 g2]; simpl in *; subst.
+  destruct r2; reflexivity.
+Qed.
+
+Lemma map_read_agreeP m : okO Po m -> fst (map_read m h') = fst (map_read m h).
+Proof.
+  destruct m as [l|]; simpl; auto. intros L. rewrite !bind_o_getP.
+  destruct AG as [_ AGo]. rewrite (AGo l L).
+  destruct (nth_error (ho h) l) as [c|]; auto. destruct c; reflexivity.
+Qed.
+Lemma funcs_read_agreeP m : okO Po m -> fst (funcs_read m h') = fst (funcs_read m h).
+Proof.
+  destruct m as [l|]; simpl; auto. intros L. rewrite !bind_o_getP.
+  destruct AG as [_ AGo]. rewrite (AGo l L).
+  destruct (nth_error (ho h) l) as [c|]; auto. destruct c; reflexivity.
+Qed.
+Lemma alias_read_agreeP m : okO Po m -> fst (alias_read m h') = fst (alias_read m h).
+Proof.
+  destruct m as [l|]; simpl; auto. intros L. rewrite !bind_o_getP.
+  destruct AG as [_ AGo]. rewrite (AGo l L).
+  destruct (nth_error (ho h) l) as [c|]; auto. destruct c; reflexivity.
+Qed.
+
+Lemma resolve_var_agreeP v : okV Pa Po v -> resolve_var h' v = resolve_var h v.
+Proof.
+  intros (W1 & W2 & W3). unfold resolve_var.
+  rewrite (elems_agreeP _ W1), (elems_agreeP _ W2).
+  destruct (v_map v) as [l|] eqn:E; auto.
+  rewrite (map_read_agreeP (Some l)); auto.
+Qed.
+
+Lemma observe_var_agreeP r name : Po (r_env r) -> observe_var r h' name = observe_var r h name.
+Proof.
+  intros L. unfold observe_var, lookup_var, bind.
+  destruct (env_get_agreeP (chain_fuel (r_env r)) (r_env r) name L) as [E W].
+  destruct (env_get (chain_fuel (r_env r)) (r_env r) name h') as [r1 g1].
+  destruct (env_get (chain_fuel (r_env r)) (r_env r) name h) as [r2 g2]. simpl in *. subst r1.
+  destruct r2 as [v| |]; simpl; auto.
+  f_equal. apply resolve_var_agreeP.
+  destruct (declared v); [apply W; auto | apply wf_var0P].
+Qed.
+
+Lemma observe_agreeP r : okR Pa Po r -> observe r h' = observe r h.
+Proof.
+  intros (L & Lf & La & Ld & Lp). unfold observe.
+  rewrite (funcs_read_agreeP _ Lf), (alias_read_agreeP _ La), (elems_agreeP _ Ld), (elems_agreeP _ Lp).
+  f_equal.
+  pose proof (env_each_agreeP (chain_fuel (r_env r)) (r_env r) L) as E.
+  destruct (env_each (chain_fuel (r_env r)) (r_env r) h') as [r1 g1].
+  destruct (env_each (chain_fuel (r_env r)) (r_env r) h) as [r2 g2]. simpl in E. subst r1.
+  destruct r2; auto. f_equal. apply map_ext. intros nv. f_equal. apply observe_var_agreeP; auto.
+Qed.
+
+End AgreeP.
+
 (* ======================================================================================= *)
 (* C27: a subshell and everything it runs leave the parent's observation unchanged           *)
 
@@ -800,13 +1112,16 @@ Proof.
   rewrite E. apply IH; auto.
 Qed.
 
+Lemma subshell_state_h g bg r h : st_h (subshell_state g bg r h) = snd (subshell g bg r h).
+Proof. unfold subshell_state. destruct (subshell g bg r h) as [[r2|e|] h1]; reflexivity. Qed.
+
 Section Isolated.
 Variable grow : nat -> nat -> nat.
 Variables (r : runner) (h : heaps).
 Let owna := fun l => length (ha h) <= l.
 Let owno := fun l => length (ho h) <= l.
 
-Lemma hinv_start : hinv owna owno h.
+Lemma hinv_start Na No : hinv owna owno Na No h.
 Proof.
   split; [split; auto|]. intros l p vals Ol E.
   assert (nth_error (ho h) l = None) by (apply nth_error_None; auto). congruence.
@@ -820,10 +1135,16 @@ Qed.
 Lemma child_frame bg ops :
   frame owna owno h (st_h (run_ops grow ops (subshell_state grow bg r h))).
 Proof.
-  unfold subshell_state.
-  destruct (triple_subshell grow owna owno bg r h hinv_start) as (F & I & P).
+  pose (Na := length (ha (st_h (run_ops grow ops (subshell_state grow bg r h))))).
+  pose (No := length (ho (st_h (run_ops grow ops (subshell_state grow bg r h))))).
+  assert (Lg : lenok Na No (st_h (run_ops grow ops (subshell_state grow bg r h)))) by (split; auto).
+  pose proof (run_ops_hle grow ops (subshell_state grow bg r h)) as M.
+  assert (L1 : lenok Na No (snd (subshell grow bg r h))).
+  { rewrite <- subshell_state_h. eapply lenok_hle; [exact M | exact Lg]. }
+  destruct (triple_subshell grow owna owno Na No bg r h (hinv_start Na No) L1) as (F & I & P).
+  clearbody Na No. unfold subshell_state in *.
   destruct (subshell grow bg r h) as [[r2|e|] h1]; simpl in *.
-  - destruct (run_ops_inv grow owna owno ops (mkSt r2 h1 false) (P r2 eq_refl) I) as (F2 & _ & _).
+  - destruct (run_ops_inv grow owna owno Na No ops (mkSt r2 h1 false) (P r2 eq_refl) I Lg) as (F2 & _ & _).
     simpl in F2. eapply frame_trans; eauto.
   - rewrite run_ops_panic; auto.
   - rewrite run_ops_panic; auto.
@@ -846,26 +1167,256 @@ Proof. apply frame_agree, child_frame. Qed.
 End Isolated.
 
 (* ======================================================================================= *)
-(* C32 (model level): each thread only writes what it owns                                   *)
+(* C32 (model level): two threads, any interleaving                                          *)
+
+Lemma rinv_mono (P Q P' Q' : loc -> Prop) r :
+  (forall l, P l -> P' l) -> (forall l, Q l -> Q' l) -> rinv P Q r -> rinv P' Q' r.
+Proof.
+  intros HP HQ (He & Hf & Ha & Hd & Hs). unfold rinv, own_opt, owned_s in *.
+  repeat split; auto.
+  - destruct (r_funcs r); auto.
+  - destruct (r_alias r); auto.
+  - destruct (r_dirstack r); auto. destruct Hd; auto.
+  - eapply Forall_impl; [|exact Hs]. simpl; auto.
+Qed.
+
+(* strict ownership: allocated and tagged t *)
+Definition sown (tags : list tid) (t : tid) (l : loc) : Prop :=
+  l < length tags /\ nth l tags TShared = t.
+(* a thread's invariant: every pointer it stores through is to a cell of its own, and an
+   own function-scope overlay has an own parent *)
+Definition tinv (t : tid) (ta to : list tid) (r : runner) (h : heaps) : Prop :=
+  rinv (sown ta t) (sown to t) r /\ fs_closed (sown to t) h.
+(* a step of thread t leaves every existing cell that is not tagged t as it was *)
+Definition writes_ok (t : tid) (ta to : list tid) (h h' : heaps) : Prop :=
+  (forall l, l < length ta -> nth l ta TShared <> t -> nth_error (ha h') l = nth_error (ha h) l) /\
+  (forall l, l < length to -> nth l to TShared <> t -> nth_error (ho h') l = nth_error (ho h) l).
+
+Lemma nth_repeat_in {A} (x d : A) k : forall i, i < k -> nth i (repeat x k) d = x.
+Proof. induction k; intros [|i] H; simpl; auto; try lia. apply IHk; lia. Qed.
+
+Lemma retag_length tags t n : length tags <= n -> length (retag tags t n) = n.
+Proof. intros. unfold retag. rewrite app_length, repeat_length. lia. Qed.
+Lemma retag_old tags t n l : l < length tags -> nth l (retag tags t n) TShared = nth l tags TShared.
+Proof. intros. unfold retag. apply app_nth1; auto. Qed.
+Lemma retag_new tags t n l : length tags <= l -> l < n -> nth l (retag tags t n) TShared = t.
+Proof.
+  intros. unfold retag. rewrite app_nth2 by auto. apply nth_repeat_in. lia.
+Qed.
 
 Section Threads.
 Variable grow : nat -> nat -> nat.
 
-(* the thread that continues in the parent Runner: P marks the cells only it can reach
-   (its overlay chain, Funcs, alias, dirStack array); everything allocated later is its own *)
-Theorem parent_writes_only_own_cells (Pa Po : loc -> Prop) r h ops :
-  let owna := fun l => Pa l \/ length (ha h) <= l in
-  let owno := fun l => Po l \/ length (ho h) <= l in
-  rinv owna owno r -> fs_closed owno h ->
-  let g := st_h (run_ops grow ops (mkSt r h false)) in
-  (forall l, l < length (ha h) -> ~ Pa l -> nth_error (ha g) l = nth_error (ha h) l) /\
-  (forall l, l < length (ho h) -> ~ Po l -> nth_error (ho g) l = nth_error (ho h) l).
+(* ownership used for one step of thread t that starts at heap h and ends with lengths Na/No *)
+Definition sta (ta : list tid) (t : tid) (h : heaps) (Na : nat) (l : loc) : Prop :=
+  l < Na /\ (nth l ta TShared = t \/ length (ha h) <= l).
+Definition sto (to : list tid) (t : tid) (h : heaps) (No : nat) (l : loc) : Prop :=
+  l < No /\ (nth l to TShared = t \/ length (ho h) <= l).
+
+(* the generic step: a computation of thread t that keeps the frame invariant *)
+Lemma thread_step t ta to h h' (r r' : runner) :
+  length ta = length (ha h) -> length to = length (ho h) -> hle h h' ->
+  let Na := length (ha h') in let No := length (ho h') in
+  fs_closed (sown to t) h ->
+  forall (P : Prop),
+  (hinv (sta ta t h Na) (sto to t h No) Na No h ->
+   frame (sta ta t h Na) (sto to t h No) h h' /\
+   (P -> rinv (sta ta t h Na) (sto to t h No) r') /\
+   hinv (sta ta t h Na) (sto to t h No) Na No h') ->
+  let ta' := retag ta t Na in let to' := retag to t No in
+  writes_ok t ta to h h' /\ (P -> tinv t ta' to' r' h') /\
+  (forall u ru, u <> t -> tinv u ta to ru h -> tinv u ta' to' ru h').
 Proof.
-  intros owna owno R C g.
-  assert (Hi : hinv owna owno h).
-  { split; auto. split; intros l L; right; auto. }
-  destruct (run_ops_inv grow owna owno ops (mkSt r h false) R Hi) as ((_ & _ & A & O) & _ & _).
-  split; intros l L N; [apply A | apply O]; unfold owna, owno; intros [X|X]; auto; lia.
+  intros La Lo [Ma Mo] Na No C P Hstep ta' to'. subst ta' to'.
+  assert (Hi : hinv (sta ta t h Na) (sto to t h No) Na No h).
+  { split; [split|].
+    - intros l L1 L2. split; auto.
+    - intros l L1 L2. split; auto.
+    - intros l p vals [Ol [Ot|Ot]] E.
+      + assert (l < length (ho h)) by (apply nth_error_Some; congruence).
+        assert (S : sown to t p). { eapply C; eauto. split; auto. lia. }
+        destruct S as [S1 S2]. split; auto. unfold No. lia.
+      + assert (l < length (ho h)) by (apply nth_error_Some; congruence). lia. }
+  destruct (Hstep Hi) as ((_ & _ & FA & FO) & R & (_ & C')).
+  assert (LA : length (retag ta t Na) = Na) by (apply retag_length; lia).
+  assert (LO : length (retag to t No) = No) by (apply retag_length; lia).
+  assert (EA : forall l, sta ta t h Na l <-> sown (retag ta t Na) t l).
+  { intros l; unfold sta, sown; rewrite LA. split.
+    - intros [L [T|T]]; split; auto.
+      + destruct (Nat.lt_ge_cases l (length ta)); [rewrite retag_old; auto | apply retag_new; auto].
+      + apply retag_new; auto; lia.
+    - intros [L T]; split; auto.
+      destruct (Nat.lt_ge_cases l (length ta)); [left; rewrite <- T; symmetry; apply retag_old; auto | right; lia]. }
+  assert (EO : forall l, sto to t h No l <-> sown (retag to t No) t l).
+  { intros l; unfold sto, sown; rewrite LO. split.
+    - intros [L [T|T]]; split; auto.
+      + destruct (Nat.lt_ge_cases l (length to)); [rewrite retag_old; auto | apply retag_new; auto].
+      + apply retag_new; auto; lia.
+    - intros [L T]; split; auto.
+      destruct (Nat.lt_ge_cases l (length to)); [left; rewrite <- T; symmetry; apply retag_old; auto | right; lia]. }
+  split; [|split].
+  - split; intros l L T; [apply FA | apply FO]; intros [_ [X|X]]; auto; lia.
+  - intros HP. split.
+    + eapply rinv_mono; [| |exact (R HP)]; intros l; [apply EA | apply EO].
+    + intros l p vals Ol E. apply EO. eapply C'; eauto. apply EO; auto.
+  - intros u ru Hu [Ru Cu]. split.
+    + eapply rinv_mono; [| |exact Ru]; intros l [L T]; split;
+        try (rewrite LA || rewrite LO); try lia; rewrite retag_old; auto.
+    + intros l p vals [L T] E.
+      assert (L0 : l < length to).
+      { destruct (Nat.lt_ge_cases l (length to)); auto.
+        rewrite retag_new in T; auto; [congruence | rewrite <- LO; auto]. }
+      rewrite retag_old in T by auto.
+      assert (NO : ~ sto to t h No l) by (intros [_ [X|X]]; [congruence | lia]).
+      rewrite (FO l NO) in E.
+      destruct (Cu l p vals (conj L0 T) E) as [P1 P2].
+      split; [rewrite LO; lia | rewrite retag_old; auto].
+Qed.
+
+Definition cinv (cf : conf) : Prop :=
+  length (cf_ta cf) = length (ha (cf_h cf)) /\ length (cf_to cf) = length (ho (cf_h cf)) /\
+  (cf_pp cf = true \/ tinv TParent (cf_ta cf) (cf_to cf) (cf_p cf) (cf_h cf)) /\
+  (cf_cp cf = true \/ tinv TChild (cf_ta cf) (cf_to cf) (cf_c cf) (cf_h cf)).
+Definition ev_tid (ev : bool * op) : tid := if fst ev then TParent else TChild.
+Definition step_ok (cf : conf) (ev : bool * op) : Prop :=
+  writes_ok (ev_tid ev) (cf_ta cf) (cf_to cf) (cf_h cf) (cf_h (sched_step grow cf ev)).
+Fixpoint all_ok (evs : list (bool * op)) (cf : conf) : Prop :=
+  match evs with
+  | [] => True
+  | ev :: rest => step_ok cf ev /\ all_ok rest (sched_step grow cf ev)
+  end.
+
+Lemma retag_same tags t n : length tags = n -> retag tags t n = tags.
+Proof. intros <-. unfold retag. rewrite Nat.sub_diag. simpl. apply app_nil_r. Qed.
+
+(* one step of thread t from runner r (panic flag pp) *)
+Lemma thread_state_step t ta to h r pp o :
+  length ta = length (ha h) -> length to = length (ho h) ->
+  (pp = true \/ tinv t ta to r h) ->
+  let s := step_state grow (mkSt r h pp) o in
+  let ta' := retag ta t (length (ha (st_h s))) in
+  let to' := retag to t (length (ho (st_h s))) in
+  writes_ok t ta to h (st_h s) /\
+  length ta' = length (ha (st_h s)) /\ length to' = length (ho (st_h s)) /\
+  (st_panic s = true \/ tinv t ta' to' (st_r s) (st_h s)) /\
+  (forall u ru, u <> t -> tinv u ta to ru h -> tinv u ta' to' ru (st_h s)).
+Proof.
+  intros La Lo Hp s ta' to'.
+  pose proof (step_state_hle grow (mkSt r h pp) o) as M. simpl in M. fold s in M.
+  destruct Hp as [Hp|[R C]].
+  - (* already panicked: nothing runs *)
+    assert (E : s = mkSt r h pp) by (unfold s, step_state; simpl; rewrite Hp; reflexivity).
+    subst ta' to'. rewrite E; simpl. rewrite !retag_same by auto.
+    split; [split; intros; reflexivity|]. split; [auto|]. split; [auto|]. split; auto.
+  - destruct (thread_step t ta to h (st_h s) r (st_r s) La Lo M C True) as (W & T & U).
+    { intros Hi. destruct M as [Ma Mo].
+      assert (R' : rinv (sta ta t h (length (ha (st_h s)))) (sto to t h (length (ho (st_h s)))) r).
+      { eapply rinv_mono; [| |exact R]; intros l [L X]; split; auto; lia. }
+      destruct (step_state_inv grow _ _ _ _ (mkSt r h pp) o R' Hi) as (F & R2 & I2).
+      { split; auto. }
+      fold s in F, R2, I2. tsplit; auto. }
+    destruct M as [Ma Mo].
+    split; [exact W|]. split; [apply retag_length; lia|]. split; [apply retag_length; lia|].
+    split; [right; apply T; exact I | exact U].
+Qed.
+
+Lemma sched_step_inv cf ev : cinv cf -> step_ok cf ev /\ cinv (sched_step grow cf ev).
+Proof.
+  intros (La & Lo & Hp & Hc). destruct ev as [[|] o]; unfold step_ok, sched_step, ev_tid; simpl.
+  - destruct (thread_state_step TParent _ _ _ _ _ o La Lo Hp) as (W & L1 & L2 & T & U).
+    split; auto. unfold cinv; simpl. repeat split; auto.
+    destruct Hc as [Hc|Hc]; [left; auto | right; apply U; auto; discriminate].
+  - destruct (thread_state_step TChild _ _ _ _ _ o La Lo Hc) as (W & L1 & L2 & T & U).
+    split; auto. unfold cinv; simpl. repeat split; auto.
+    destruct Hp as [Hp|Hp]; [left; auto | right; apply U; auto; discriminate].
+Qed.
+
+Lemma run_sched_ok evs : forall cf, cinv cf -> all_ok evs cf /\ cinv (run_sched grow evs cf).
+Proof.
+  induction evs as [|ev evs IH]; intros cf Hc; simpl; auto.
+  destruct (sched_step_inv cf ev Hc) as [S C]. destruct (IH _ C) as [A C']. auto.
+Qed.
+
+(* the fork itself: Runner.subshell(true) is a step of the copy *)
+Lemma fork_inv r h ta to :
+  length ta = length (ha h) -> length to = length (ho h) ->
+  tinv TParent ta to r h ->
+  (forall l, nth l to TShared <> TChild) ->
+  cinv (fork_conf grow r h ta to) /\ writes_ok TChild ta to h (cf_h (fork_conf grow r h ta to)).
+Proof.
+  intros La Lo TP NC. unfold fork_conf. simpl.
+  set (s := subshell_state grow true r h).
+  assert (M : hle h (st_h s)).
+  { unfold s. rewrite subshell_state_h. apply mono_subshell. }
+  assert (C0 : fs_closed (sown to TChild) h).
+  { intros l p vals [L T] E. exfalso. eapply NC; eauto. }
+  destruct (thread_step TChild ta to h (st_h s) r (st_r s) La Lo M C0 (st_panic s = false)) as (W & T & U).
+  { intros Hi. pose proof (subshell_state_h grow true r h) as Es. fold s in Es. rewrite Es in *.
+    assert (L : lenok (length (ha (snd (subshell grow true r h)))) (length (ho (snd (subshell grow true r h))))
+                      (snd (subshell grow true r h))) by (split; auto).
+    destruct (triple_subshell grow _ _ _ _ true r h Hi L) as (F & I & Q).
+    tsplit; auto.
+    intros Hp. unfold s, subshell_state in *.
+    destruct (subshell grow true r h) as [[r2|e|] h1]; simpl in *; try discriminate. apply Q; auto. }
+  destruct M as [Ma Mo]. split; auto.
+  unfold cinv; simpl. repeat split; try (apply retag_length; lia).
+  - right. apply U; auto. discriminate.
+  - destruct (st_panic s) eqn:P; [left; auto | right; apply T; auto].
+Qed.
+
+(* every cell classified as shared at the fork keeps its contents under every interleaving *)
+Lemma shared_stable evs : forall cf, cinv cf ->
+  (forall l, l < length (cf_ta cf) -> nth l (cf_ta cf) TShared = TShared ->
+     nth_error (ha (cf_h (run_sched grow evs cf))) l = nth_error (ha (cf_h cf)) l) /\
+  (forall l, l < length (cf_to cf) -> nth l (cf_to cf) TShared = TShared ->
+     nth_error (ho (cf_h (run_sched grow evs cf))) l = nth_error (ho (cf_h cf)) l).
+Proof.
+  induction evs as [|ev evs IH]; intros cf Hc; simpl; auto.
+  destruct (sched_step_inv cf ev Hc) as [[WA WO] C]. destruct (IH _ C) as [A O].
+  assert (TA : forall l, l < length (cf_ta cf) ->
+                 l < length (cf_ta (sched_step grow cf ev)) /\
+                 nth l (cf_ta (sched_step grow cf ev)) TShared = nth l (cf_ta cf) TShared).
+  { intros l L. destruct ev as [[|] o]; unfold sched_step; simpl;
+      (split; [unfold retag; rewrite app_length; lia | apply retag_old; auto]). }
+  assert (TO : forall l, l < length (cf_to cf) ->
+                 l < length (cf_to (sched_step grow cf ev)) /\
+                 nth l (cf_to (sched_step grow cf ev)) TShared = nth l (cf_to cf) TShared).
+  { intros l L. destruct ev as [[|] o]; unfold sched_step; simpl;
+      (split; [unfold retag; rewrite app_length; lia | apply retag_old; auto]). }
+  split; intros l L T.
+  - destruct (TA l L) as [L' T']. rewrite A by (auto; congruence).
+    apply WA; auto. rewrite T. unfold ev_tid. destruct (fst ev); discriminate.
+  - destruct (TO l L) as [L' T']. rewrite O by (auto; congruence).
+    apply WO; auto. rewrite T. unfold ev_tid. destruct (fst ev); discriminate.
+Qed.
+
+Theorem no_shared_writes_interleaved r h ta to evs :
+  length ta = length (ha h) -> length to = length (ho h) ->
+  tinv TParent ta to r h -> (forall l, nth l to TShared <> TChild) ->
+  all_ok evs (fork_conf grow r h ta to) /\
+  cinv (run_sched grow evs (fork_conf grow r h ta to)) /\
+  (forall l, l < length ta -> nth l ta TShared = TShared ->
+     nth_error (ha (cf_h (run_sched grow evs (fork_conf grow r h ta to)))) l = nth_error (ha h) l) /\
+  (forall l, l < length to -> nth l to TShared = TShared ->
+     nth_error (ho (cf_h (run_sched grow evs (fork_conf grow r h ta to)))) l = nth_error (ho h) l).
+Proof.
+  intros La Lo TP NC. destruct (fork_inv r h ta to La Lo TP NC) as [C [WA WO]].
+  destruct (run_sched_ok evs _ C) as [A C']. destruct (shared_stable evs _ C) as [SA SO].
+  assert (LA' : forall l, l < length ta -> l < length (cf_ta (fork_conf grow r h ta to)) /\
+                 nth l (cf_ta (fork_conf grow r h ta to)) TShared = nth l ta TShared).
+  { intros l L. unfold fork_conf; simpl. split; [unfold retag; rewrite app_length; lia | apply retag_old; auto]. }
+  assert (LO' : forall l, l < length to -> l < length (cf_to (fork_conf grow r h ta to)) /\
+                 nth l (cf_to (fork_conf grow r h ta to)) TShared = nth l to TShared).
+  { intros l L. unfold fork_conf; simpl. split; [unfold retag; rewrite app_length; lia | apply retag_old; auto]. }
+  split; auto. split; auto. split; intros l L T.
+  - destruct (LA' l L) as [L1 T1].
+    transitivity (nth_error (ha (cf_h (fork_conf grow r h ta to))) l).
+    + apply SA; auto; congruence.
+    + apply WA; auto; rewrite T; discriminate.
+  - destruct (LO' l L) as [L1 T1].
+    transitivity (nth_error (ho (cf_h (fork_conf grow r h ta to))) l).
+    + apply SO; auto; congruence.
+    + apply WO; auto; rewrite T; discriminate.
 Qed.
 
 End Threads.
@@ -966,6 +1517,60 @@ Proof.
       intros; apply Hj; congruence. }
   rewrite (proj1 (Forall_forall _ _) F j (nth_error_In _ _ E) P). eauto.
 Qed.
+
+(* ======================================================================================= *)
+(* C32: what the copy observes does not depend on what the parent does after the fork        *)
+Section Visibility.
+Variable grow : nat -> nat -> nat.
+
+Lemma stable_under t evs : forall cf, cinv cf -> Forall (fun ev => ev_tid ev = t) evs ->
+  (forall l, l < length (cf_ta cf) -> nth l (cf_ta cf) TShared <> t ->
+     nth_error (ha (cf_h (run_sched grow evs cf))) l = nth_error (ha (cf_h cf)) l) /\
+  (forall l, l < length (cf_to cf) -> nth l (cf_to cf) TShared <> t ->
+     nth_error (ho (cf_h (run_sched grow evs cf))) l = nth_error (ho (cf_h cf)) l).
+Proof.
+  induction evs as [|ev evs IH]; intros cf Hc HF; simpl; auto.
+  inversion HF as [|? ? Hev HF']; subst.
+  destruct (sched_step_inv grow cf ev Hc) as [[WA WO] C]. destruct (IH _ C HF') as [A O].
+  assert (TA : forall l, l < length (cf_ta cf) ->
+                 l < length (cf_ta (sched_step grow cf ev)) /\
+                 nth l (cf_ta (sched_step grow cf ev)) TShared = nth l (cf_ta cf) TShared).
+  { intros l L. destruct ev as [[|] o]; unfold sched_step; simpl;
+      (split; [unfold retag; rewrite app_length; lia | apply retag_old; auto]). }
+  assert (TO : forall l, l < length (cf_to cf) ->
+                 l < length (cf_to (sched_step grow cf ev)) /\
+                 nth l (cf_to (sched_step grow cf ev)) TShared = nth l (cf_to cf) TShared).
+  { intros l L. destruct ev as [[|] o]; unfold sched_step; simpl;
+      (split; [unfold retag; rewrite app_length; lia | apply retag_old; auto]). }
+  split; intros l L T.
+  - destruct (TA l L) as [L' T']. rewrite A by (auto; congruence). apply WA; auto.
+  - destruct (TO l L) as [L' T']. rewrite O by (auto; congruence). apply WO; auto.
+Qed.
+
+(* the cells the parent never writes: everything not tagged TParent *)
+Definition not_parent (tags : list tid) (l : loc) : Prop :=
+  l < length tags /\ nth l tags TShared <> TParent.
+
+Theorem copy_unaffected_by_parent r h ta to ops :
+  length ta = length (ha h) -> length to = length (ho h) ->
+  tinv TParent ta to r h -> (forall l, nth l to TShared <> TChild) ->
+  closedP (not_parent (cf_ta (fork_conf grow r h ta to))) (not_parent (cf_to (fork_conf grow r h ta to)))
+          (cf_h (fork_conf grow r h ta to)) ->
+  okR (not_parent (cf_ta (fork_conf grow r h ta to))) (not_parent (cf_to (fork_conf grow r h ta to)))
+      (cf_c (fork_conf grow r h ta to)) ->
+  observe (cf_c (fork_conf grow r h ta to))
+          (cf_h (run_sched grow (map (fun o => (true, o)) ops) (fork_conf grow r h ta to))) =
+  observe (cf_c (fork_conf grow r h ta to)) (cf_h (fork_conf grow r h ta to)).
+Proof.
+  intros La Lo TP NC CL OK.
+  destruct (fork_inv grow r h ta to La Lo TP NC) as [C _].
+  destruct (stable_under TParent (map (fun o => (true, o)) ops) _ C) as [SA SO].
+  { apply Forall_forall. intros ev Hin. apply in_map_iff in Hin. destruct Hin as (o & <- & _). reflexivity. }
+  eapply observe_agreeP; eauto.
+  split; intros l [L T]; auto.
+Qed.
+
+End Visibility.
 
 (* ======================================================================================= *)
 (* concrete witnesses                                                                         *)
